@@ -122,7 +122,7 @@ Section Facts.
       + unfold key. rewrite !Nat.eqb_refl. reflexivity.
       + lia.
       + repeat split; [left; auto|right; left; auto|lia|]. intros x [<-|[<-|[]]]; lia.
-    - destruct (2 <? n); cbn; repeat constructor; auto. intros [].
+    - destruct (2 <? n); cbn; repeat constructor; auto.
     - intros a b (Ha & Hb & Hab & _) Hw.
       assert (a = 0 /\ b = n - 1) as [-> ->].
       { destruct Ha as [<-|[<-|[]]]; destruct Hb as [<-|[<-|[]]]; lia. }
@@ -175,7 +175,7 @@ Section Facts.
     assert (Hst0 : forall p' l' r', In (p', (l', r')) st0 -> p' = key l' r' /\ l' + 3 <= r' /\ AdjS l' (r' - 1) red /\ l' <> l).
     { intros p' l' r' H. destruct (inv_st _ _ HI p' l' r' ltac:(apply in_or_app; left; exact H)) as (A & B & C).
       repeat split; auto; try apply C. intros ->. apply (proj2 Hnd0). unfold lefts.
-      change l with (fst (snd (p', (l, r')))). apply in_map. exact H. }
+      apply in_map_iff. exists (p', (l, r')). split; [reflexivity|exact H]. }
     split; [reflexivity|]. split; [reflexivity|]. split; [exact Hg|]. split; [exact Hw|]. split; [exact Hrn|].
     split; [exact Hadj|]. split; [exact Hp|]. split.
     { exists (new1 ++ new2). split; [reflexivity|]. intros e He. apply in_app_or in He. destruct He as [He|He].
@@ -206,7 +206,7 @@ Section Facts.
                    ~ In g (map (fun e : entry => fst (snd e)) st0 ++ map (fun e : entry => fst (snd e)) new1)).
       { unfold new1. destruct (2 <? l + idx + 1 - l); cbn [map].
         - split; [apply NoDup_snoc; [apply Hnd0|apply Hnd0]|].
-          intros Hin'. apply in_app_or in Hin'. destruct Hin' as [Hin'|[Hin'|[]]]; [exact (Hgl Hin')|lia].
+          intros Hin'. apply in_app_or in Hin'. destruct Hin' as [Hin'|[Hin'|[]]]; [exact (Hgl Hin')|cbn in Hin'; lia].
         - rewrite app_nil_r. split; [apply Hnd0|exact Hgl]. }
       rewrite app_assoc. unfold new2. destruct (2 <? l + (r - l) - (l + idx)); cbn [map].
       + apply NoDup_snoc; apply H1.
@@ -221,4 +221,225 @@ Section Facts.
       + left. pose proof (inv_all _ _ HI a b Hold Hwide) as H. apply in_app_or in H. destruct H as [H|[H|[]]]; [exact H|].
         inversion H; subst. congruence.
   Qed.
+
+  (* ---- consequences of the invariant ---- *)
+  Lemma last_In {A} (l : list A) d : l <> [] -> In (last l d) l.
+  Proof.
+    intros H. destruct (exists_last H) as (l' & a & ->). rewrite last_last. apply in_or_app. right. left. auto.
+  Qed.
+  Lemma Inv_WF st red : Inv st red -> WF n red.
+  Proof.
+    intros HI. pose proof (inv_si _ _ HI) as HS. pose proof (inv_0 _ _ HI) as H0. pose proof (inv_n _ _ HI) as Hl.
+    assert (Hne : red <> []) by (intros ->; destruct H0).
+    repeat split; auto.
+    - pose proof (SI_hd_le red 1 0 HS H0). lia.
+    - pose proof (SI_le_last red 0 (n - 1) HS Hl). pose proof (inv_le _ _ HI _ (last_In red 0 Hne)). lia.
+    - assert (Hincl : incl [0; n - 1] red) by (intros x [<-|[<-|[]]]; auto).
+      apply NoDup_incl_length in Hincl; [exact Hincl|]. constructor; [intros [H|[]]; lia|constructor; [intros []|constructor]].
+  Qed.
+  Lemma Inv_len_le st red : Inv st red -> length red <= n.
+  Proof.
+    intros HI. destruct (Inv_WF _ _ HI) as (HS & Hh & Hl & Hlen).
+    assert (Hne : red <> []) by (intros ->; cbn in Hlen; lia).
+    pose proof (SI_length_bound red HS Hne). rewrite Hl in H.
+    assert (hd 0 red = 0) by (destruct red; [congruence|exact Hh]). lia.
+  Qed.
+  Lemma SI_nogap_length red : SI red -> red <> [] ->
+    (forall a b, In (a, b) (adj_pairs red) -> b < a + 2) -> length red = last red 0 - hd 0 red + 1.
+  Proof.
+    induction red as [|a [|b l] IH]; intros HS Hne Hgap; [congruence|cbn; lia|].
+    change (last (a :: b :: l) 0) with (last (b :: l) 0).
+    destruct HS as [Hab HS]. specialize (IH HS ltac:(discriminate)).
+    assert (IH' : length (b :: l) = last (b :: l) 0 - hd 0 (b :: l) + 1).
+    { apply IH. intros a' b' H. apply Hgap. right. exact H. }
+    cbn [length hd] in *. pose proof (Hgap a b (or_introl eq_refl)).
+    pose proof (SI_le_last (b :: l) 0 b HS (or_introl eq_refl)). lia.
+  Qed.
+  Lemma Inv_empty_full red : Inv [] red -> length red = n.
+  Proof.
+    intros HI. destruct (Inv_WF _ _ HI) as (HS & Hh & Hl & Hlen).
+    assert (Hne : red <> []) by (intros ->; cbn in Hlen; lia).
+    rewrite SI_nogap_length; auto.
+    - rewrite Hl. assert (hd 0 red = 0) by (destruct red; [congruence|exact Hh]). lia.
+    - intros a b H. apply Adj_AdjS in H; auto.
+      destruct (le_lt_dec (a + 2) b) as [Hw|]; [|lia]. destruct (inv_all _ _ HI a b H Hw).
+  Qed.
+
+  (* ---- the specification sequence: iterate the (total) step function ---- *)
+  Definition state : Type := (list entry * list nat)%type.
+  Definition step (s : state) : state :=
+    match body (fst s) with
+    | Some (g, st') => (st', insert_nat g (snd s))
+    | None => s
+    end.
+  Definition InvS (s : state) : Prop := Inv (fst s) (snd s).
+  Definition init : state := (stack0 n, reduced0 n).
+  Fixpoint iterS (j : nat) (s : state) : state := match j with O => s | S j' => step (iterS j' s) end.
+  Lemma iterS_succ_r j : forall s, iterS (S j) s = iterS j (step s).
+  Proof. induction j; intros s; [reflexivity|]. change (iterS (S (S j)) s) with (step (iterS (S j) s)). rewrite IHj. reflexivity. Qed.
+  Definition state_at (j : nat) : state := iterS j init.
+  (* S_k *)
+  Definition Sk (k : nat) : list nat := snd (state_at (k - 2)).
+
+  Lemma step_empty s : fst s = [] -> step s = s.
+  Proof. intros H. unfold step. rewrite H. reflexivity. Qed.
+  Lemma iter_step_empty j s : fst s = [] -> iterS j s = s.
+  Proof. intros H. induction j; [reflexivity|]. cbn [iterS]. rewrite IHj. apply step_empty, H. Qed.
+  Lemma step_nonempty s : InvS s -> fst s <> [] ->
+    exists p l r st0,
+      fst s = st0 ++ [(p, (l, r))] /\ l < l + split_guarded (dist l r) < r - 1 /\ l + 3 <= r /\ r <= n /\
+      AdjS l (r - 1) (snd s) /\ p = key l r /\
+      body (fst s) = Some (l + split_guarded (dist l r), fst (step s)) /\
+      snd (step s) = insert_nat (l + split_guarded (dist l r)) (snd s) /\
+      (exists news, fst (step s) = sort_by ele (st0 ++ news) /\ forall e, In e news -> fst e = prio (fst (snd e)) (snd (snd e))) /\
+      InvS (step s).
+  Proof.
+    intros HI Hne. destruct (body_step _ _ HI Hne) as (p & l & r & st0 & st' & E & Hb & Hg & Hw & Hr & Hadj & Hp & Hnews & HI').
+    exists p, l, r, st0. unfold step, InvS. rewrite Hb. cbn [fst snd].
+    split; [exact E|]. split; [exact Hg|]. split; [exact Hw|]. split; [exact Hr|]. split; [exact Hadj|].
+    split; [exact Hp|]. split; [reflexivity|]. split; [reflexivity|]. split; [exact Hnews|exact HI'].
+  Qed.
+  Lemma step_inv s : InvS s -> InvS (step s).
+  Proof.
+    intros HI. destruct (fst s) as [|e st] eqn:E.
+    - rewrite step_empty; auto.
+    - destruct (step_nonempty s HI ltac:(rewrite E; discriminate)) as (? & ? & ? & ? & H). apply H.
+  Qed.
+  Lemma step_length s : InvS s -> fst s <> [] -> length (snd (step s)) = S (length (snd s)).
+  Proof.
+    intros HI Hne. destruct (step_nonempty s HI Hne) as (p & l & r & st0 & _ & _ & _ & _ & _ & _ & _ & E & _).
+    rewrite E. apply insert_nat_length.
+  Qed.
+  Lemma nonempty_lt s : InvS s -> fst s <> [] -> length (snd s) < n.
+  Proof.
+    intros HI Hne. pose proof (step_length s HI Hne). pose proof (Inv_len_le _ _ (step_inv s HI)). lia.
+  Qed.
+  Lemma full_empty s : InvS s -> n <= length (snd s) -> fst s = [].
+  Proof.
+    intros HI H. destruct (fst s) eqn:E; auto. pose proof (nonempty_lt s HI ltac:(rewrite E; discriminate)). lia.
+  Qed.
+  Lemma iter_inv j s : InvS s -> InvS (iterS j s).
+  Proof. intros H. induction j; [exact H|]. cbn [iterS]. apply step_inv, IHj. Qed.
+  Lemma state_at_inv j : InvS (state_at j).
+  Proof. apply iter_inv. exact Inv_init. Qed.
+  Lemma state_at_S j : state_at (S j) = step (state_at j).
+  Proof. reflexivity. Qed.
+  Lemma state_at_add i j : state_at (i + j) = iterS j (state_at i).
+  Proof. unfold state_at. rewrite Nat.add_comm. induction j; [reflexivity|]. cbn [Nat.add iterS]. rewrite IHj. reflexivity. Qed.
+
+  Lemma state_at_length j : length (snd (state_at j)) = Nat.min (j + 2) n.
+  Proof.
+    induction j as [|j IH]; [unfold state_at, init, reduced0; cbn [iterS snd length]; lia|].
+    rewrite state_at_S. pose proof (state_at_inv j) as HI.
+    destruct (fst (state_at j)) eqn:E.
+    - rewrite step_empty; auto. pose proof HI as HI'. unfold InvS in HI'. rewrite E in HI'. apply Inv_empty_full in HI'. lia.
+    - assert (Hne : fst (state_at j) <> []) by (rewrite E; discriminate).
+      rewrite step_length; auto. pose proof (nonempty_lt _ HI Hne). lia.
+  Qed.
+
+  (* ---- C05 on the specification sequence ---- *)
+  Theorem Sk_WF k : WF n (Sk k).
+  Proof. exact (Inv_WF _ _ (state_at_inv (k - 2))). Qed.
+  Theorem Sk_length k : length (Sk k) = Nat.min (Nat.max k 2) n.
+  Proof. unfold Sk. rewrite state_at_length. lia. Qed.
+  Lemma Sk_clip k : n <= k -> Sk k = Sk n.
+  Proof.
+    intros H. unfold Sk. replace (k - 2) with ((n - 2) + (k - n)) by lia. rewrite state_at_add.
+    rewrite iter_step_empty; auto. apply full_empty; [apply state_at_inv|]. rewrite state_at_length. lia.
+  Qed.
+
+  Theorem Sk_nested k : 2 <= k -> k < n ->
+    exists a b, In (a, b) (adj_pairs (Sk k)) /\ a + 2 <= b /\
+      a < a + split_guarded (dist a (b + 1)) < b /\
+      Sk (k + 1) = insert_nat (a + split_guarded (dist a (b + 1))) (Sk k).
+  Proof.
+    intros H2 Hk. pose proof (state_at_inv (k - 2)) as HI.
+    assert (Hne : fst (state_at (k - 2)) <> []).
+    { intros E. unfold InvS in HI. rewrite E in HI. apply Inv_empty_full in HI. rewrite state_at_length in HI. lia. }
+    destruct (step_nonempty _ HI Hne) as (p & l & r & st0 & _ & Hg & Hw & Hr & Hadj & _ & _ & E & _).
+    exists l, (r - 1). replace (r - 1 + 1) with r by lia. split; [|split; [lia|split; [exact Hg|]]].
+    - apply AdjS_Adj; [apply (inv_si _ _ HI)|exact Hadj].
+    - unfold Sk. replace (k + 1 - 2) with (S (k - 2)) by lia. rewrite state_at_S. exact E.
+  Qed.
+
+  (* Tier O: the farthest-point clause is a property of the guarded split alone *)
+  Lemma nth_interior (d : list (T N)) i : i < length (interior d) -> nth (S i) d zero = nth i (interior d) zero.
+  Proof.
+    intros H. rewrite interior_length in H. destruct d as [|a d]; [cbn in H; lia|]. cbn [nth]. unfold interior. cbn [tl].
+    destruct d as [|b d] using rev_ind; [cbn in H; lia|]. rewrite removelast_last.
+    cbn [length] in H. rewrite app_length in H. cbn in H. rewrite app_nth1; [reflexivity|lia].
+  Qed.
+  Theorem split_farthest (P : T N -> Prop) (d : list (T N)) :
+    TotalPreorderOn P -> (forall x, P x -> isnan x = false) ->
+    all_lt d eps = false -> Forall P (interior d) ->
+    Forall (fun x => x <=?! nth (split_guarded d) d zero = true) (interior d).
+  Proof.
+    intros HP Pnn Hall HF. unfold RdpFixed.split_guarded. rewrite Hall.
+    destruct (interior d) eqn:E; [constructor|]. rewrite <- E in *.
+    rewrite nth_interior; [|apply argmax_lt; rewrite E; discriminate].
+    apply (argmax_max P HP Pnn). exact HF.
+  Qed.
+
+  (* Tier O: the stack is sorted by priority, so the popped segment has maximal priority *)
+  Section Greedy.
+    Variable P : T N -> Prop.
+    Hypothesis HP : TotalPreorderOn P.
+    Hypothesis Pzero : P zero.
+    Hypothesis Pprio : forall l r, P (prio l r).
+    Let Rle (a b : entry) : Prop := ele a b = true.
+
+    Lemma Pkey l r : P (key l r).
+    Proof. unfold key. destruct ((l =? 0) && (r =? n)); auto. Qed.
+    Lemma state_sorted j : StronglySorted Rle (fst (state_at j)).
+    Proof.
+      destruct j as [|j].
+      - cbn. unfold stack0. destruct (2 <? n); repeat constructor.
+      - rewrite state_at_S. pose proof (state_at_inv j) as HI.
+        destruct (fst (state_at j)) as [|e0 l0] eqn:E.
+        + rewrite step_empty; auto. rewrite E. constructor.
+        + destruct (step_nonempty _ HI ltac:(rewrite E; discriminate)) as (p & l & r & st0 & Est & _ & _ & _ & _ & _ & _ & _ & (news & -> & Hnews) & _).
+          apply (sort_by_sorted ele (fun e : entry => P (fst e))).
+          * intros x y z Px Py Pz. unfold ele. apply (ord_trans P HP); auto.
+          * intros x y Px Py. unfold ele. apply (ord_total P HP); auto.
+          * apply Forall_app. split; rewrite Forall_forall.
+            -- intros [p' [l' r']] He. cbn [fst].
+               destruct (inv_st _ _ HI p' l' r') as (-> & _); [|apply Pkey].
+               rewrite Est. apply in_or_app. left. exact He.
+            -- intros e He. rewrite (Hnews e He). apply Pprio.
+    Qed.
+
+    Theorem Sk_greedy k : 2 <= k -> k < n ->
+      exists a b, In (a, b) (adj_pairs (Sk k)) /\ a + 2 <= b /\
+        Sk (k + 1) = insert_nat (a + split_guarded (dist a (b + 1))) (Sk k) /\
+        forall a' b', In (a', b') (adj_pairs (Sk k)) -> a' + 2 <= b' ->
+          (a' = a /\ b' = b) \/ prio a' (b' + 1) <=?! prio a (b + 1) = true.
+    Proof.
+      intros H2 Hk. pose proof (state_at_inv (k - 2)) as HI.
+      assert (Hne : fst (state_at (k - 2)) <> []).
+      { intros E. unfold InvS in HI. rewrite E in HI. apply Inv_empty_full in HI. rewrite state_at_length in HI. lia. }
+      destruct (step_nonempty _ HI Hne) as (p & l & r & st0 & Est & Hg & Hw & Hr & Hadj & Hp & _ & E & _).
+      exists l, (r - 1). replace (r - 1 + 1) with r by lia. split; [|split; [lia|split]].
+      - apply AdjS_Adj; [apply (inv_si _ _ HI)|exact Hadj].
+      - unfold Sk. replace (k + 1 - 2) with (S (k - 2)) by lia. rewrite state_at_S. exact E.
+      - intros a' b' Hin Hwide. fold (Sk k) in *.
+        apply Adj_AdjS in Hin; [|apply (inv_si _ _ HI)].
+        pose proof (inv_all _ _ HI a' b' Hin Hwide) as Hmem. rewrite Est in Hmem.
+        apply in_app_or in Hmem. destruct Hmem as [Hmem|[Hmem|[]]].
+        + pose proof (state_sorted (k - 2)) as Hs. rewrite Est in Hs.
+          apply (sorted_snoc_max ele) in Hs. rewrite Forall_forall in Hs. specialize (Hs _ Hmem).
+          unfold ele in Hs. cbn [fst] in Hs. subst p.
+          (* keys are priorities unless a segment is the root, and the root is alone *)
+          assert (Hroot : forall x y, AdjS x y (Sk k) -> (x =? 0) && (y + 1 =? n) = true -> forall x' y', AdjS x' y' (Sk k) -> x' = x /\ y' = y).
+          { intros x y (Hx & Hy & Hxy & Hno) Hc x' y' (Hx' & Hy' & Hxy' & _).
+            apply andb_true_iff in Hc. destruct Hc as [Hc1 Hc2]. apply Nat.eqb_eq in Hc1, Hc2.
+            pose proof (inv_le _ _ HI _ Hy'). destruct (Hno x' Hx'); destruct (Hno y' Hy'); lia. }
+          unfold key in Hs.
+          destruct ((a' =? 0) && (b' + 1 =? n)) eqn:C1.
+          { left. destruct (Hroot a' b' Hin C1 l (r - 1) Hadj). lia. }
+          destruct ((l =? 0) && (r =? n)) eqn:C2.
+          { left. replace r with (r - 1 + 1) in C2 by lia. apply (Hroot l (r - 1) Hadj C2 a' b' Hin). }
+          right. exact Hs.
+        + left. inversion Hmem. lia.
+    Qed.
+  End Greedy.
 End Facts.
